@@ -9,7 +9,8 @@ model (`Sen.tightVal`, `Sen.tightElems`, `Sen.tightMembers`, Sen/Writer.lean; `S
 was written against: any edit of these functions — a changed clamp, separator, bracket, depth, member filter,
 dispatch condition — breaks one of them, whether or not the correspondence run finds an input for it. The constants
 `spaces` / `tabs` themselves are `Gen.Sen.spaces` / `Gen.Sen.tabs` (`Sen.spaces_shape`, `Sen.tabs_shape`, Props/C10Indent.lean).
-(A harmless reformulation of the Go text breaks them too: then the model has to be re-read against the new text.) -/
+(A harmless reformulation of the Go text breaks them too: then the model has to be re-read against the new text;
+`python3 /verif/harness/cmd/sen/regen_c10facts.py` takes the regenerated text over as the expected one.) -/
 namespace OjgVerif.Sen
 open OjgVerif
 
